@@ -107,6 +107,27 @@ def main() -> None:
             bad.append((i, "SsbScript compilation result is not closed"))
         elif not (len(c["infos"]) == len(c["ops"]) == len(c["coros"])):
             bad.append((i, "SsbScript: tables differ in length"))
+    # sources at the edge of validity, in both languages: whatever is accepted must be closed as well (unused labels at
+    # the end of a routine or file, labels nobody defines, jump markers in odd places, no labels at all)
+    edge_es = ["def 0 {\n    jump @nowhere;\n}\n", "def 0 {\n    a();\n    call @nowhere;\n    end;\n}\n",
+               "def 0 {\n    a();\n    @unused;\n}\n", "def 0 {\n    a();\n    end;\n    @u1;\n    @u2;\n}\ndef 1 {\n    b();\n    @u3;\n}\n",
+               "def 0 {\n    if (debug) {\n        jump @nowhere;\n    }\n    end;\n}\n",
+               "def 0 {\n    a();\n}\ndef 1 {\n    jump @other;\n}\n", "def 0 {\n    @x;\n    jump @x;\n}\n"]
+    edge_ss = ["def 0 {\n    a();\n    @unused;\n}\n", "def 0 {\n    a();\n    Jump(@nowhere);\n}\n", "def 0 {\n    Jump(@a, 5);\n    @a;\n    b();\n}\n",
+               "def 0 {\n    a(@l);\n}\ndef 1 {\n    @l;\n    b();\n    @end;\n}\n", "def 0 {\n    @only;\n}\n",
+               "def 0 {\n    a(1, @x);\n    @x;\n    @y;\n    End();\n    @z;\n}\n", "def 0 {\n    Branch(1, 2, @z);\n    End();\n}\ndef 1 {\n    @z;\n}\n"]
+    eres = run_impl([("compile", t) for t in edge_es] + [("ssbs_compile", "//?: is-ssb-script: true\n" + t) for t in edge_ss] +
+                    [("ssbs_compile", t) for t in edge_ss])
+    etexts = edge_es + edge_ss + edge_ss
+    eok = [(t, r) for t, r in zip(etexts, eres) if r["ok"]]
+    ecl = run_driver([[A("closed"), program_sexp(r["ops"])] for _, r in eok])
+    for (t, r), cl in zip(eok, ecl):
+        run.case(["edge", t], nontrivial=True)
+        run.count("edge sources accepted and closed:" + str(bool(cl.get("closed"))))
+        if not cl.get("closed"):
+            run.fail("edge-source-not-closed", "an accepted source at the edge of validity compiles to a result that is not closed "
+                     "(pseudo op left, dangling or missing target)", {"source": t, "ops": r["ops"]})
+    run.count("edge sources rejected", len(etexts) - len(eok))
     if ok_idx:
         i0 = ok_idx[0]
         run.sample({"case": progs[i0][0], "source": texts[i0], "ops": results[i0]["ops"]})
